@@ -61,6 +61,7 @@ type rCfg struct {
 	SetupFail   bool   `json:"setup_fail"`
 	SetupMode   string `json:"setup_mode"`
 	SetupUs     int64  `json:"setup_us"`      // setup sleeps this long
+	Wedge       bool   `json:"wedge"`         // negative replay of RunLifecycle's wedge: park a due progress tick until main is inside Summary
 	StopDelayUs int64  `json:"stop_delay_us"` // the hook parks the pool's stop goroutine this long at tp.stop.flagged
 	PoolOnly    bool   `json:"pool_only"`     // cooperative pool schedules: no Run.Do around the pool
 	Light       bool   `json:"light"`         // contention runs: bodies only record their id lock-free; no end/cleanup events
@@ -105,6 +106,9 @@ type rRec struct {
 	stageIdx  int
 	stageEnv  []string
 	stopDelay time.Duration
+	wedge     bool
+	atSummary chan struct{}
+	sumOnce   sync.Once
 }
 
 func (r *rRec) us() int64 { return time.Since(r.t0).Microseconds() }
@@ -131,6 +135,19 @@ func curGoid() int64 {
 // hook is the free-running hook function: it only logs.
 func (r *rRec) hook(point string, who any, n int64) {
 	switch point {
+	case "rr.tick":
+		if r.wedge {
+			// hold the due progress tick until the main goroutine is inside Summary (or give up after 400 ms)
+			select {
+			case <-r.atSummary:
+			case <-time.After(400 * time.Millisecond):
+			}
+		}
+	case "res.summary.locked":
+		if r.wedge {
+			r.sumOnce.Do(func() { close(r.atSummary) })
+			time.Sleep(150 * time.Millisecond) // let the released tick reach SnapshotProgress (a pending writer)
+		}
 	case "iw.eval":
 		r.add(rEv{K: "eval", A: n, C: r.us()})
 	case "tp.stop.flagged":
@@ -266,7 +283,7 @@ func leakedF1Goroutines() (int, string) {
 func runOne(c *ctx, rc rCase, m *metrics.Metrics) rTrace {
 	tr := rTrace{Cfg: rc.cfg}
 	rec := &rRec{t0: time.Now(), stopG: map[int64]bool{}, envKeys: rc.envKeys, stageEnv: rc.stageEnv,
-		stopDelay: time.Duration(rc.cfg.StopDelayUs) * time.Microsecond}
+		stopDelay: time.Duration(rc.cfg.StopDelayUs) * time.Microsecond, wedge: rc.cfg.Wedge, atSummary: make(chan struct{})}
 	verifhook.Install(rec.hook)
 	defer verifhook.Install(nil)
 	var evalMu sync.Mutex
@@ -664,6 +681,13 @@ func buildCases(c *ctx) []rCase {
 			}
 			return rateTrigger(r, w), nil
 		}, bodyMaxUs: 30000})
+	// negative replay of the RunLifecycle wedge (Mut_RunLifecycle_StopNoWait): the first progress tick (1 s) is due when the
+	// run ends; it is parked until main holds Summary's read lock. If Stop() really waits this is unrealisable.
+	{
+		rc := constantCase("progress-wedge", "2/100ms", 100*ms, 2, 0, 1030*ms, "none")
+		rc.cfg.Wedge = true
+		add(rc)
+	}
 	// staged / ramp / gaussian
 	add(rCase{cfg: rCfg{Name: "staged", Mode: "staged", RateMode: true, Conc: 6, MaxDurUs: 2000 * ms, IntervalUs: 20 * ms, Args: "0s:4,150ms:10,150ms:0"},
 		build: func(w func(api.RateFunction) api.RateFunction) (*api.Trigger, error) {
